@@ -406,6 +406,24 @@ Theorem fsign_nonzero eps1 x : 0 < eps1 -> fsign ROps eps1 x <> 0.
 Proof.
   intros He. unfold fsign. rnorm. rcases; try lra; try nra.
 Qed.
+(* ... its magnitude never falls below the threshold: tiny NON-ZERO differences are clamped too, so a gradient ratio a / fsign x
+   is bounded by |a| / eps1 (this is what keeps the ratio finite next to differences of order one) *)
+Theorem fsign_lower_bound eps1 x : 0 < eps1 -> eps1 <= Rabs (fsign ROps eps1 x).
+Proof.
+  intros He. unfold fsign. rnorm. unfold Rabs. rcases; intros; repeat destruct (Rcase_abs _); try lra; try nra.
+Qed.
+Theorem fsign_same_sign eps1 x : 0 < eps1 -> 0 <= x * fsign ROps eps1 x.
+Proof.
+  intros He. unfold fsign. rnorm. unfold Rabs. rcases; intros; try lra; try nra.
+Qed.
+Theorem fsign_ratio_bounded eps1 a x : 0 < eps1 -> Rabs (a / fsign ROps eps1 x) <= Rabs a / eps1.
+Proof.
+  intros He. pose proof (fsign_lower_bound eps1 x He) as Hl.
+  assert (Hn : fsign ROps eps1 x <> 0) by (intros E; rewrite E, Rabs_R0 in Hl; lra).
+  unfold Rdiv. rewrite Rabs_mult, Rabs_Rinv by exact Hn.
+  apply Rmult_le_compat_l; [apply Rabs_pos|].
+  apply Rinv_le_contravar; [exact He|exact Hl].
+Qed.
 (* ... and is the identity away from the threshold *)
 Theorem fsign_id eps1 x : 0 < eps1 -> eps1 <= Rabs x -> fsign ROps eps1 x = x.
 Proof.
